@@ -4,6 +4,7 @@ cd "$(dirname "$0")" || exit 2
 export OCAMLRUNPARAM=${OCAMLRUNPARAM:-s=1M}
 mkdir -p build evidence build/empty_config
 cd coq || exit 2
+python3 -c "import sys; sys.path.insert(0,'/verif'); from harness.common import coqproject_text, COQ; (COQ/'_CoqProject').write_text(coqproject_text())" || exit 1
 coq_makefile -f _CoqProject -o Makefile > /dev/null || exit 1
 # -k: a proof that does not build must not stop the other properties' libraries from building;
 # each check rebuilds (and reports) its own closure
